@@ -13,7 +13,7 @@ from pandapipes.component_models.junction_component import Junction
 from pandapipes.idx_branch import DIRECTED, \
     JAC_DERIV_DP, JAC_DERIV_DP1, JAC_DERIV_DM, BRANCH_TYPE, LOSS_COEFFICIENT as LC, PC as PC_BRANCH
 from pandapipes.idx_node import PINIT, NODE_TYPE, PC as PC_NODE
-from pandapipes.pf.pipeflow_setup import get_lookup
+from pandapipes.pf.pipeflow_setup import get_lookup, PipeflowNotConverged
 from pandapipes.pf.result_extraction import extract_branch_results_without_internals
 from pandapipes.properties.fluids import get_fluid
 
@@ -70,6 +70,10 @@ class PressureControlComponent(BranchWOInternalsComponent):
         controlled = pcs.control_active.values & pcs.in_service.values
         juncts = pcs['controlled_junction'].values[controlled]
         press = pcs['controlled_p_bar'].values[controlled]
+        if len(np.unique(juncts)) < len(juncts):
+            # two set points for one pressure: the system of equations has no unique solution
+            raise PipeflowNotConverged("Several active pressure controllers control the same junction (%s), the network "
+                                       "is over-determined." % juncts)
         junction_idx_lookups = get_lookup(net, "node", "index")[
             cls.get_connected_node_type().table_name()]
         index_pc = junction_idx_lookups[juncts]
